@@ -117,6 +117,6 @@ def run(ctx):
         xh.Cond('vp.harness.pipe', 'pipe_bytes', timeout=300, path_timeout=60, env={'VP_VERSIONS': '0,4,8'}, name='pipe.pipe_bytes/%d' % kk,
                 extra_pre=['k == %d' % kk, 'at == %d' % at], bound='byte skeleton %d, symbolic ASCII byte at offset %d, BOM flag' % (kk, at),
                 symbolic='byte value, BOM flag')
-        for kk, at in ((0, 1), (1, 2), (2, 0), (3, 0))
+        for kk, at in ((0, 1), (1, 2), (2, 0), (3, 0), (4, 0), (5, 20))
     ]
     xh.run_conditions(ctx, C)
